@@ -57,7 +57,7 @@ CONSTANTS Node,              \* set of strings "n1".."n4"
           MaxVer, MaxGen,    \* heartbeat bounds
           MaxState,          \* member states 0..MaxState (0 = healthy)
           MaxMsgs,           \* messages in flight
-          Topos,             \* subset of {"self","hub","full","out","skew","chain","part"}
+          Topos,             \* subset of {"self","hub","full","out","skew","chain","part","lag"}
           ZeroDigestWindow   \* TRUE = code as written
 VARIABLES view,      \* view[n]: function from the members n knows to records [g, v, s]
           net,       \* set of in-flight messages
@@ -105,6 +105,7 @@ InitKnown(t, n) ==
     [] t = "hub"  -> IF n = HubOf THEN {n} ELSE {n, HubOf}   \* spokes know the hub only
     [] t = "out"  -> IF n = HubOf THEN Node ELSE {n}         \* only the hub knows anybody
     [] t = "skew" -> Node    \* everybody knows everybody, each is ahead on its own record
+    [] t = "lag" -> Node
     [] t = "chain" -> {k \in Node : Idx(k) \in {Idx(n), Idx(n) + 1}}   \* n_i knows n_i, n_i+1
     [] t = "part" -> CASE Idx(n) = 1 -> {k \in Node : Idx(k) <= 3}      \* partially overlapping:
                        [] Idx(n) = 2 -> {k \in Node : Idx(k) \in {2, 3}} \* n1 {1,2,3}, n2 {2,3},
@@ -112,8 +113,15 @@ InitKnown(t, n) ==
                        [] OTHER -> {k \in Node : Idx(k) >= 3}
 \* in "skew", "chain" and "part" every node has already ticked once (own record (0,1), held by
 \* the others at (0,0)), so the ZeroDigestWindow cannot mask anything else
+\* "lag": everybody knows everybody, but at different ages: the owner k is at version 2, the
+\* node after k (cyclically) holds k at version 1, the others at version 0 - so one node can
+\* be asked for a record that a third node holds newer (versions capped by MaxVer)
+LagVer(n, k) == LET want == IF k = n THEN 2 ELSE IF Idx(n) = (Idx(k) % Cardinality(Node)) + 1 THEN 1 ELSE 0
+                IN IF want > MaxVer THEN MaxVer ELSE want
 InitView(t) == [n \in Node |-> [k \in InitKnown(t, n) |->
-                  IF t \in {"skew", "chain", "part"} /\ k = n /\ MaxVer > 0 THEN Rec(0, 1, 0) ELSE Rec(0, 0, 0)]]
+                  IF t = "lag" THEN Rec(0, LagVer(n, k), 0)
+                  ELSE IF t \in {"skew", "chain", "part"} /\ k = n /\ MaxVer > 0 THEN Rec(0, 1, 0)
+                  ELSE Rec(0, 0, 0)]]
 Init == /\ \E t \in Topos : view = InitView(t)
         /\ net = {} /\ exchanged = {} /\ stale = {}
 
